@@ -1,6 +1,6 @@
 (* C14 extraction: ExtrOcamlBasic only; N / Z / positive stay Coq's binary datatypes. *)
 From Coq Require Import NArith ZArith List.
-From ZV.Mem Require Import Cwksp Estimate DBuffers History LevelDefs DOwner CDictLevel C14Round2.
+From ZV.Mem Require Import Cwksp Estimate DBuffers History LevelDefs DOwner CDictLevel C14Round2 MtOwner.
 Require Import ExtrOcamlBasic.
 Extraction "Extract/out/c14model.ml"
   N.add N.sub N.mul N.div_eucl N.eqb Z.opp Z.of_N
@@ -21,4 +21,5 @@ Extraction "Extract/out/c14model.ml"
   DBuffers.dstream_load_header DBuffers.dstate0 DBuffers.frame_windowSize
   DOwner.down_step DOwner.down0 DOwner.sizeof_DCtx_full DOwner.live_after DOwner.free_events DOwner.hs_count
   DOwner.estimateDStreamSize_fromFrame CDictLevel.cdict_level_recipe CDictLevel.getCParams_public
-  C14Round2.need_advanced_raw.
+  C14Round2.need_advanced_raw
+  MtOwner.mt_create MtOwner.mt_step MtOwner.mt_sizeof MtOwner.mt_sizeof_old MtOwner.mt_free_events.
